@@ -176,21 +176,29 @@ def check(rep):
                 break
     # refusal of non-generable systems
     refusals = 0
-    for text in ["CCOF.|50%|CCCCl.|50%|", "CCOF.|20%|CCCCl.|30%|CCCBr", "CCOF.|100|CCCCl", "CCOF.|40%|CCCCl.|60%|", "CCCF"]:
+    for text in ["CCOF.|50%|CCCCl.|50%|", "CCOF.|20%|CCCCl.|30%|CCCBr", "CCOF.|100|CCCCl", "CCOF.|40%|CCCCl.|60%|", "CCCF",
+                 # masses known, but one component has a stochastic object without distribution
+                 "CCO.|50%|NC{[>][<]CC[>][<]}CN.|500|", "NC{[>][<]CC[>][<]}CN.|50%|CCO.|500|",
+                 "CCO.|40%|NC{[>][<]CC[>][<]}CN.|20%|OC{[>][<]CC[>][<]}|uniform(12, 48)|CO.|600|", "NC{[>][<]CC[>][<]}CN.|500|"]:
         try:
             s = gbigsmiles.System(text)
         except Exception:
             continue
+        # every probe is not generable BY CONSTRUCTION (unknown masses, or a component without distribution): the flag must say so ...
         if s.generable:
-            continue
+            rep.fail("oracle", f"system {text} reports generable although it is not (unknown masses or a component that cannot be generated)", {"text": text, "call": "generable"},
+                     expected="generable == False", observed="True")
         refusals += 1
-        for name, fn in (("generator", lambda: next(type(s).generator.fget(s, rng=np.random.default_rng(1)))), ("generate", lambda: s.generate(rng=np.random.default_rng(1)))):
-            try:
-                res = fn()
-                rep.fail("oracle", f"non-generable system {text} did not refuse {name}(): returned {getattr(res, 'smiles', res)}", {"text": text, "call": name},
-                         expected="an error", observed=str(getattr(res, "smiles", res)))
-            except Exception:
-                pass
+        # ... and neither way of generating may hand out a molecule, whatever the random stream
+        for sd in range(6):
+            for name, fn in (("generator", lambda: next(type(s).generator.fget(s, rng=np.random.default_rng(sd)))), ("generate", lambda: s.generate(rng=np.random.default_rng(sd)))):
+                try:
+                    res = fn()
+                    rep.fail("oracle", f"non-generable system {text} did not refuse {name}() (seed {sd}): returned {getattr(res, 'smiles', res)}", {"text": text, "call": name, "seed": sd},
+                             expected="an error", observed=str(getattr(res, "smiles", res)))
+                    break
+                except Exception:
+                    pass
     rep.coverage.update({"evaluations": evaluations + refusals, "distinct_nontrivial": len(distinct), "systems": evaluations, "non_generable_systems_tried": refusals,
                          "interleaved_schedules": interleaved, "molecules_yielded": sum(n for _, n, _ in runs), "exact_landing_systems": landing, "systems_by_kind": hist, "loop_runs_validated_against_model": len(runs),
                          "rule": "systems of 1-4 components (small molecules, four polymer archetypes, one never-complete polymer), each with its own hetero atom, "
